@@ -1,0 +1,30 @@
+//go:build verif
+
+// Package verifhook is the registry the verification harness (/verif) uses to
+// observe the engine.  It is compiled in only with the build tag "verif"; without
+// the tag every function below is an empty, inlinable stub (see off.go).
+package verifhook
+
+// IOFn, when set, is called immediately before every file-level I/O call the
+// engine issues (open/create, write, sync, truncate, close) with the file name
+// and the byte count (or new length) of the call.
+var IOFn func(kind string, name string, n int64)
+
+// PointFn, when set, is called at named points between file-system steps
+// (merge, merge adoption) and at schedule points of the public API.
+var PointFn func(name string, arg string)
+
+// Enabled reports whether the hooks are compiled in.
+const Enabled = true
+
+func IO(kind string, name string, n int64) {
+	if f := IOFn; f != nil {
+		f(kind, name, n)
+	}
+}
+
+func Point(name string, arg string) {
+	if f := PointFn; f != nil {
+		f(name, arg)
+	}
+}
